@@ -169,7 +169,7 @@ fn pop_bytes(s: &mut Vec<W>) -> RRes<Vec<u8>> {
     Ok(b)
 }
 
-fn sha256(b: &[u8]) -> [u8; 32] {
+pub fn sha256(b: &[u8]) -> [u8; 32] {
     use sha2::Digest;
     let mut h = sha2::Sha256::new();
     h.update(b);
